@@ -619,7 +619,7 @@ def reader_path_checksums(rng, tier, rep, hx):
             # far into a long stream, also straddling a multiple of 2^32, alone or as the first of two frames
             inp["base"] = rng.choice(([1, 2147483647], [1, 2147483646], [1, 2147483645], [1, 2147483644], [1, 2147483640], [2, 5], [3, 2147483646],
                                       [4294967295, 2147483647], [4294967295, 2147483646], [4294967295, 2147483645], [4294967295, 2147483644]))
-            if len(b) in (7, 14) and rng.random() < 0.5:
+            if len(b) == gen.flen(b[0] >> 3) and rng.random() < 0.5:      # (the burst may have changed the format bits)
                 inp["chain"] = 1
         ins.append(inp)
     ev = reader_checks.hx_reader(hx, ins)
@@ -629,5 +629,6 @@ def reader_path_checksums(rng, tier, rep, hx):
         e = ev[v["index"]]
         for owner, field in v["pairs"]:
             rep.mismatch(owner, v["cls"], field, {"kind": "reader", "bytes": e["bytes"], "hex": bytes(e["bytes"]).hex(), "script": e["script"],
-                                                  "out": e["out"], "plain": e["plain"]})
+                                                  "out": e["out"], "plain": e["plain"], "base": ins[v["index"]].get("base", [0, 0]),
+                                                  "chain": ins[v["index"]].get("chain", 0)})
     rep.extra["reader_path_decodes"] = len(ev)
